@@ -566,6 +566,8 @@ class LinearModel(Model):
 
         #Store matrix privately
         self._matrix = matrix
+        self._matrix_is_given = matrix is not None
+        self._par_matrix = None # Assembled matrix if the given one is not the forward operator
 
         #Add gradient
         self._gradient_func = lambda direction, wrt: self._adjoint_func(direction)
@@ -600,24 +602,40 @@ class LinearModel(Model):
         """
         Returns an ndarray with the matrix representing the forward operator.
         """
-        if self._matrix is not None: #Matrix exists so return it
-            return self._matrix
-        else:
-            #TODO: Can we compute this faster while still in sparse format?
-            mat = csc_matrix((self.range_dim,0)) #Sparse (m x 1 matrix)
-            e = np.zeros(self.domain_dim)
-            
-            # Stacks sparse matrices on csc matrix
-            for i in range(self.domain_dim):
-                e[i] = 1
-                col_vec = self.forward(e)
-                mat = hstack((mat,col_vec[:,None])) #mat[:,i] = self.forward(e)
-                e[i] = 0
+        # A matrix given by the user acts on function values. It represents the
+        # forward operator (parameters to parameters) only if the geometries do
+        # not alter the values; otherwise the matrix is assembled from forward.
+        if self._matrix_is_given and not (
+            self._is_identity_geometry(self.domain_geometry) and
+            self._is_identity_geometry(self.range_geometry)):
+            if self._par_matrix is None:
+                self._par_matrix = self._assemble_matrix()
+            return self._par_matrix
 
-            #Store matrix for future use
-            self._matrix = mat
+        if self._matrix is None:
+            self._matrix = self._assemble_matrix() #Store matrix for future use
+        return self._matrix
 
-            return self._matrix
+    @staticmethod
+    def _is_identity_geometry(geometry):
+        """ True if par2fun and fun2par of the geometry are known to return their input unchanged. """
+        if type(geometry) in (_DefaultGeometry1D, cuqi.geometry.Continuous1D, cuqi.geometry.Discrete):
+            return True
+        return type(geometry) in (_DefaultGeometry2D, cuqi.geometry.Image2D) and geometry.visual_only
+
+    def _assemble_matrix(self):
+        """ Matrix of the forward operator, column by column from forward(e_i). """
+        #TODO: Can we compute this faster while still in sparse format?
+        mat = csc_matrix((self.range_dim,0)) #Sparse (m x 1 matrix)
+        e = np.zeros(self.domain_dim)
+
+        # Stacks sparse matrices on csc matrix
+        for i in range(self.domain_dim):
+            e[i] = 1
+            col_vec = np.asarray(self.forward(e))
+            mat = hstack((mat,col_vec[:,None])) #mat[:,i] = self.forward(e)
+            e[i] = 0
+        return mat
 
     def __matmul__(self, x):
         return self.forward(x)
